@@ -63,6 +63,20 @@ def _same_outcome(a, b):
     return a["exc"] == b["exc"] and a["msg"] == b["msg"]
 
 
+def replay_children_started_item_pattern(run, path, first, later) -> bool:
+    """True iff `later` differs from `first` only by items that were STARTED in the first result and are finished in the
+    rebuilt one, for an operation recorded with ReplayChildren (the recorded known finding of C09, see known_findings.json)."""
+    op = run.backend.ops.get(run.backend.by_path.get(path, ""), {})
+    if not op.get("ReplayChildren") or not hasattr(first, "all") or not hasattr(later, "all"):
+        return False
+    a, b_ = list(first.all), list(later.all)
+    if len(a) != len(b_):
+        return False
+    ok = all((x.status == y.status and teq(x.result, y.result) and teq(x.error, y.error)) or (x.status.value == "STARTED" and y.status.value in ("SUCCEEDED", "FAILED"))
+             for x, y in zip(a, b_))
+    return ok and any(x.status.value == "STARTED" and y.status.value != "STARTED" for x, y in zip(a, b_))
+
+
 def mon_c02(run, case, stmts):
     first: dict = {}
     for o in run.obs:
@@ -78,6 +92,8 @@ def mon_c02(run, case, stmts):
         if not _same_outcome(f, o):
             kind = "exception_class_diverges" if (f["out"] == "exc" and o["out"] == "exc" and f["exc"] != o["exc"]) else "replayed_outcome_differs"
             site = o["kind"] + (":check-raised" if (o["kind"] == "wfcond" and f["out"] == "exc") else "")
+            if o["kind"] in ("map", "parallel") and f["out"] == "value" and o["out"] == "value" and replay_children_started_item_pattern(run, p, f["value"], o["value"]):
+                site = o["kind"] + ":replay-children:started-item-finished-before-parent-record"
             run.v("C02", kind, site, f"{p}: first completion (inv {f['inv']}) delivered {_fmt(f)}, invocation {o['inv']} delivered {_fmt(o)}")
 
 
